@@ -173,6 +173,22 @@ FNS = {'log10': lambda x: np.log10(x + 1.0) if False else np.log10(np.maximum(x,
        'exp2': lambda x: 2.0 ** (x / 1024.0)}
 
 
+FORMS = ('pos', 'name', 'neg', 'mixed', 'tuple')
+
+
+def spell(sub, form, n=3):
+    """the channel list sub (positions) written by position, by name, by position counted from the last channel, or mixed"""
+    if form == 'pos':
+        return list(sub)
+    if form == 'name':
+        return ['CH%d' % (j + 1) for j in sub]
+    if form == 'neg':
+        return [j - n for j in sub]
+    if form == 'tuple':
+        return tuple(('CH%d' % (j + 1), j)[(i + j) % 2] for i, j in enumerate(sub))
+    return [(j - n, 'CH%d' % (j + 1), j)[(i + j) % 3] for i, j in enumerate(sub)]
+
+
 def run_case(c):
     import FlowCal
     res = Result()
@@ -183,8 +199,8 @@ def run_case(c):
             pne = ['%r,%r' % (c['a0'], c['a1'])] * 3
             d = make_sample(c['res'], pne)
             for sub in ([c['sub']] if 'sub' in c else subsets(3)):
-                for spelled in ('pos', 'name'):
-                    chans = sub if spelled == 'pos' else ['CH%d' % (j + 1) for j in sub]
+                for spelled in FORMS:
+                    chans = spell(sub, spelled)
                     one = dict(c, sub=sub)
                     t = FlowCal.transform.to_rfi(d, chans)
                     what = 'to_rfi(log amplifier a0=%r a1=%r, resolutions %r, channels=%r)' % (c['a0'], c['a1'], c['res'], chans)
@@ -196,11 +212,13 @@ def run_case(c):
             d = make_sample(c['res'], ['0,0'] * 3, c['gains'])
             for sub in ([c['sub']] if 'sub' in c else subsets(3)):
                 one = dict(c, sub=sub)
-                t = FlowCal.transform.to_rfi(d, sub)
-                what = 'to_rfi(linear amplifier gains %r, resolutions %r, channels=%r)' % (c['gains'], c['res'], sub)
-                if check_limits(res, what, 'rfi-lin', d, t, sub, one, 3):
-                    res.ok('rfi-lin', any(c['gains'][j] not in (None, 1) for j in sub))
-                check_empty(res, what, 'rfi-lin', d, t, lambda x: FlowCal.transform.to_rfi(x, sub), one)
+                for spelled in FORMS:
+                    chans = spell(sub, spelled)
+                    t = FlowCal.transform.to_rfi(d, chans)
+                    what = 'to_rfi(linear amplifier gains %r, resolutions %r, channels=%r)' % (c['gains'], c['res'], chans)
+                    if check_limits(res, what, 'rfi-lin', d, t, sub, one, 3):
+                        res.ok('rfi-lin', any(c['gains'][j] not in (None, 1) for j in sub))
+                    check_empty(res, what, 'rfi-lin', d, t, lambda x: FlowCal.transform.to_rfi(x, chans), one)
             res.sample({'kind': k, 'gains': c['gains'], 'resolutions': c['res']})
         elif k == 'mef':
             m = c['m']
@@ -213,10 +231,15 @@ def run_case(c):
                 scs = [curve(m, b), curve(m + 0.013, b + 0.21), curve(m - 0.011, max(b - 0.17, 0.0))]
                 for sub in ([c['sub']] if 'sub' in c else ([0], [1], [0, 1], [0, 1, 2], [2, 0])):
                     one = dict(kind='mef', m=m, b=b, bs=[b], sub=sub, rfi=c['rfi'])
-                    t = FlowCal.transform.to_mef(d, sub, scs, [0, 1, 2])
-                    what = 'to_mef(curve slope %r intercept %r, channels=%r) after to_rfi (%s amplifiers)' % (m, b, sub, c['rfi'])
-                    if check_limits(res, what, 'mef', d, t, sorted(set(sub)), one, 3):
-                        res.ok('mef', True)
+                    # names and non-negative positions may be mixed freely between the request and the curve list; positions counted
+                    # from the last channel are matched literally by to_mef (a mismatch is refused, never passed through), so they
+                    # are used on both sides
+                    for spelled, scform in (('pos', 'pos'), ('name', 'pos'), ('pos', 'name'), ('name', 'name'), ('neg', 'neg')):
+                        chans = spell(sub, spelled)
+                        t = FlowCal.transform.to_mef(d, chans, scs, spell([0, 1, 2], scform))
+                        what = 'to_mef(curve slope %r intercept %r, channels=%r) after to_rfi (%s amplifiers)' % (m, b, chans, c['rfi'])
+                        if check_limits(res, what, 'mef', d, t, sorted(set(sub)), one, 3):
+                            res.ok('mef', True)
             res.sample({'kind': k, 'm': m, 'b_values': len(c['bs']), 'subsets': [[0], [1], [0, 1], [0, 1, 2], [2, 0]]})
         elif k == 'mef-fitted':
             tables = [([12.0, 55.0, 260.0, 1300.0, 6000.0], [0.0, 646.0, 4827.0, 47609.0, 273006.0]),
@@ -246,9 +269,11 @@ def run_case(c):
             d = make_sample([1024, 4096, 256], ['0,0'] * 3)
             fn = FNS[c['fn']]
             for sub in subsets(3):
-                t = FlowCal.transform.transform(d, sub, fn)
-                what = 'transform(np %s, channels=%r)' % (c['fn'], sub)
-                if check_limits(res, what, 'transform:' + c['fn'], d, t, sub, dict(c), 3):
-                    res.ok('transform', True)
+                for spelled in FORMS:
+                    chans = spell(sub, spelled)
+                    t = FlowCal.transform.transform(d, chans, fn)
+                    what = 'transform(np %s, channels=%r)' % (c['fn'], chans)
+                    if check_limits(res, what, 'transform:' + c['fn'], d, t, sub, dict(c), 3):
+                        res.ok('transform', True)
             res.sample({'kind': k, 'function': c['fn']})
     return res
